@@ -27,7 +27,8 @@ func init() {
 			"R9 splitPatch sends '-' lines to the minus version only, '+' lines to the plus version only and all others to both, stripping exactly the marker byte. " +
 			"R11 a repeated metavariable compares literally (= C02-R3/R7): the matcher captured at the first occurrence is compiled from the captured code by a fresh compiler with no metavariable table; R12 every matcher hands its sub-matchers projections of its own candidate (= C03-R9). " +
 			"NOT decided: correctness of reflect, go/parser and astutil.Apply; semantic adequacy of the pattern parse (pgo); interaction of overlapping matches; which text ends up in the output (C03/C05)." +
-			" After F15: the recorded matches are replaced last-recorded first (innermost first).",
+			" After F15: the recorded matches are replaced last-recorded first (innermost first)." +
+			" R9 also: the section splitter hands a line on as content[startOffset:offset] (untrimmed). R13 a half-applied change is never emitted (= C03-R11). Dispatch tables kept as data and higher-order loop helpers (collect / matchEach) are read through their summaries.",
 		Trusted:     commonTrusted,
 		Assumptions: commonAssumptions,
 	})
